@@ -70,6 +70,17 @@ class VS(V):
         return 'VS(%s)' % self.t
 
 
+class VBy(V):
+    """symbolic bytes: a z3 String whose characters are the byte values (see pyvc/bytesmodel.py)"""
+    __slots__ = ('t',)
+
+    def __init__(self, t):
+        self.t = t
+
+    def __repr__(self):
+        return 'VBy(%s)' % self.t
+
+
 class VR(V):
     """float, modelled as a mathematical real (assumption, C16 only)"""
     __slots__ = ('t',)
